@@ -98,6 +98,48 @@ def run(tier, replay=None):
                        "program.mro": s["mro"],
                        "trace.ndjson": "\n".join(json.dumps(e) for e in r["trace"]) + "\n"},
         })
+    # real processes: exit-status-only and signal deaths, with mrp's automatic retry
+    # (cmd/mrp attemptRetry): a job that dies the same way every time must still
+    # end the pipestance failed, naming the stage, with mrp exiting non-zero
+    import os
+    import procdrv
+    root = procdrv.build_root()
+    pprogs = [q for q in shapes.catalogue() if q["name"] in ("chain", "split2")]
+    psem, _ = psrun.semantics(pprogs)
+    proc_report = []
+    pbase = vlib.scratch("c06p")
+    for q in pprogs:
+        jobs = [j["key"] for j in psprops.expected_jobs(psem[q["name"]]) if j["kind"] != "split"]
+        for fault in ("signal", "exit"):
+            key = jobs[rng.randrange(len(jobs))]
+            c = procdrv.Cycle(root, os.path.join(pbase, "%s_%s" % (q["name"], fault)), q, psem[q["name"]], "retry",
+                              delay_ms=5, faults={key: fault})
+            rc_, dt = c.run(timeout=120)
+            evs = c.events()
+            execs = sum(1 for e in evs if e.get("ev") == "StageBegin" and e.get("job") == key)
+            out = ""
+            try:
+                out = open(os.path.join(c.wd, "mrp.out"), errors="replace").read()
+            except OSError:
+                pass
+            call = key.split("[")[0].split(".")[-1]
+            proc_report.append({"program": q["name"], "job": key, "fault": fault, "mrp_exit": rc_, "executions": execs,
+                                "seconds": round(dt, 1), "locked_after": c.locked()})
+            rp = {"report.json": json.dumps(proc_report[-1]), "program.mro": c.mro, "mrp.out": out[-3000:]}
+            if rc_ == "timeout":
+                viols.append({"key": "C06:process:%s:never-ends" % fault,
+                              "what": "a job that dies every time (%s, %s in %s) was executed %d times and mrp did not end the pipestance within 120 s" % (
+                                  fault, key, q["name"], execs), "replay": rp})
+            elif rc_ == 0:
+                viols.append({"key": "C06:process:%s:exit-zero" % fault,
+                              "what": "mrp exited with status 0 although job %s dies every time (%s)" % (key, fault), "replay": rp})
+            elif ("." + call) not in out and call not in out:
+                viols.append({"key": "C06:process:%s:not-named" % fault,
+                              "what": "mrp's error report does not name the failing stage %s: %s" % (call, out[-300:].replace("\n", " ")), "replay": rp})
+            elif c.locked():
+                viols.append({"key": "C06:process:%s:left-locked" % fault,
+                              "what": "mrp exited after the failure but left the pipestance locked", "replay": rp})
+            c.cleanup()
     rc, nunk, hit = vlib.conclude("C06", viols)
     kinds = {}
     for s in specs:
@@ -117,8 +159,9 @@ def run(tier, replay=None):
         "programs": len(progs), "fault_runs": len(specs), "fault_kinds": kinds,
         "incarnation_outcomes": states,
         "monitor_records": len(records), "known_findings_hit": hit,
+        "process_runs_with_persistent_faults": proc_report,
     }, COMMON_ASSUMPTIONS + [
-        "fault manifestations injected by the table-driven stage code: _errors, _assert, truncated _outs, missing output key, wrong JSON type, malformed _stage_defs; exit-code-only and signal deaths need real processes and are covered by the process driver (C05) only",
+        "fault manifestations injected by the table-driven stage code: _errors, _assert, truncated _outs, missing output key, wrong JSON type, malformed _stage_defs; exit-status-only and signal deaths are produced by real stage processes under mrjob with the real mrp and its default automatic retry (4 process runs)",
         "after the failure mrp's exit is modelled as in cmd/mrp: Unlock, local jobs die; then a fresh Runtime re-attaches (ReattachToPipestance, Reset, RestartLocalJobs) with the fault removed",
         "'independent calls are unaffected' is checked in its minimal reading: results recorded before the failure are not executed again and the restarted run completes with the reference outputs",
     ], time.time() - t0, violations=nunk)
